@@ -501,7 +501,8 @@ async def _one_trace(rng, length, script=None, avail=None):
                 else:
                     n, nxt = nxt, nxt + 1
                 g = rng.choice([0, 0, 0, 1, 2])
-                need = Need.DEFAULT.value if rng.random() < 0.9 else Need.OPTIONAL.value
+                rn = rng.random()
+                need = Need.DEFAULT.value if rn < 0.8 else Need.OPTIONAL.value if rn < 0.88 else Need.PLAN.value
                 if n != p:
                     await d.define(p, n, g, _rand_claims(rng), need,
                                    ev=rng.choice([None, None, None, {"A": "1"}, {"A": "2"}]))
@@ -652,7 +653,8 @@ def _b3_runs(ctx):
                 ("amend-slot:small-file", LP.scenario_amend_slot(1, 1, big=False), 1),
                 ("resource-amend", LP.scenario_resource_amend(), 2),
                 ("hold-amend", LP.scenario_hold_amend(), 2),
-                ("over-release", LP.scenario_over_release(), 3)]
+                ("over-release", LP.scenario_over_release(), 3),
+                ("hold-plan", LP.scenario_hold_plan(), 3)]
     for name, (proj, avail, din), njob in directed:
         for schedule in (None, {"seed": 1, "points": ["start", "end"]}):
             res, rec = LP.run_build(proj, njob, avail, schedule)
@@ -925,7 +927,8 @@ def _gen_project(rng):
             elif r < 0.55 and depth < 2:
                 lbl = fresh("plan")
                 declared_in[lbl] = owner
-                acts.append({"op": "step", "label": lbl, "resources": res_for()})
+                # a planning step (api.plan: need = PLAN), possibly inside the open hold block of its creator
+                acts.append({"op": "step", "label": lbl, "resources": res_for(), "need": "PLAN"})
                 commands[lbl] = body(lbl, depth + 1)
             else:
                 lbl = fresh("w")
